@@ -108,6 +108,9 @@ Section ZT.
       eapply (nisp2_complete CS msgs C ct pk bases k U ds p2 e1); try eassumption. rewrite HC. rewrite Z.mod_mod by lia. reflexivity. }
     rewrite Hbt. cbn [bind negb].
     rewrite (nispm_complete CS msgs C pk bases U d1 pm d2 HN Hlen Hr Hm HC Hd1 Hpm). cbn [bind negb].
+    assert (Hlper : length per = length U).
+    { apply (mmapM_forall _ (fun _ => True) U _ _ _ (fun _ _ _ _ _ => I) Hper). }
+    rewrite !map_length, Hlper, Nat.eqb_refl. cbn [andb negb].
     rewrite (zk_loop_complete CS BP (pk_N pk) HN Ht msgs pk bases bi eq_refl Hbi Hbu U d2 per d3 Hper). cbn [bind negb].
     rewrite Ha0. cbn [bind].
     (* the commitment to the randomness: a_0^r b^r' *)
@@ -195,7 +198,7 @@ Section BI.
     rewrite Hlhs. cbn [bind].
     destruct (prod_pows_total (pk_N pk) HN0 bases msgs 1 Hmn Hlen) as [r0 Hr0]. rewrite Hr0. cbn [bind].
     rewrite pow_mod_nonneg by lia. cbn [bind].
-    destruct (Z.leb_spec e (two (le CS - 1))); [lia|].
+    destruct (Z.leb_spec e (two (le CS - 1))); [lia|]. destruct (Z.leb_spec (two (le CS)) e); [lia|]. cbn [orb].
     apply (prod_pows_PP (pk_N pk) HN0) in Hr0 as [Hr00 Hr0e]; [|assumption|lia].
     f_equal. apply Z.eqb_eq.
     rewrite rem_mod_nonneg by first [lia | repeat apply Z.mul_nonneg_nonneg; try lia; apply Z.mod_pos_bound; lia].
